@@ -75,6 +75,9 @@ pub struct Mem {
     pub faults_hit: u64,
     /// cap on the size of a single read (0 = unlimited)
     pub max_read: usize,
+    /// cap on the bytes accepted by a single write (0 = unlimited): a sink that
+    /// legally performs short writes, like a pipe or a chunk-limited wrapper
+    pub max_write: usize,
 }
 
 impl Mem {
@@ -141,10 +144,13 @@ impl Write for Mem {
     fn write(&mut self, buf: &[u8]) -> io::Result<usize> {
         let pos = self.pos;
         let mut n = buf.len();
+        if self.max_write > 0 {
+            n = n.min(self.max_write);
+        }
         match self.check(Op::Write) {
             Some(FaultMode::Short) => {
                 self.faults_hit += 1;
-                n = (buf.len() / 2).max(1).min(buf.len());
+                n = (n / 2).max(1).min(buf.len());
             }
             Some(m) => {
                 self.log(Op::Write, pos, 0, &[], false);
